@@ -72,17 +72,42 @@ class Collector:
         self.obs.append(ob(oid, construct, rule, UNDECIDED, detail))
 
 
+class TaskTimeout(BaseException):
+    pass
+
+
+def _alarm(signum, frame):
+    raise TaskTimeout()
+
+
+TASK_TIMEOUT = int(os.environ.get("FVERIF_TASK_TIMEOUT", "0"))
+
+
 def _run_task(args):
     modname, fname, kwargs, task_id = args
     t0 = time.time()
+    import signal
+
+    limit = TASK_TIMEOUT or (1500 if kwargs.get("tier") == "thorough" or os.environ.get("FVERIF_TIER") == "thorough" else 240)
+    col = None
     try:
         from . import ring
 
         ring.reset()
         mod = importlib.import_module(modname)
         col = Collector()
-        getattr(mod, fname)(col, **kwargs)
+        signal.signal(signal.SIGALRM, _alarm)
+        signal.alarm(limit)
+        try:
+            getattr(mod, fname)(col, **kwargs)
+        finally:
+            signal.alarm(0)
         return dict(task=task_id, obs=col.obs, info=col.info, wall=time.time() - t0)
+    except TaskTimeout:
+        obs = list(col.obs) if col is not None else []
+        obs.append(ob("task", task_id, "task execution", UNDECIDED,
+                      "analysis budget of %d s exceeded (expression swell): undecided, not a verdict" % limit))
+        return dict(task=task_id, obs=obs, info=col.info if col is not None else {}, wall=time.time() - t0)
     except BaseException as e:  # noqa
         return dict(
             task=task_id,
@@ -134,6 +159,7 @@ def run_property(pid, tier, seed, jobs=None):
         os.remove(evidence_path)
     except OSError:
         pass
+    os.environ["FVERIF_TIER"] = tier
     try:
         mod = importlib.import_module(modname)
         spec = mod.SPEC
